@@ -11,6 +11,7 @@ import (
 	"encoding/binary"
 	"encoding/json"
 	"fmt"
+	"hash/fnv"
 	"math"
 	"math/rand"
 	"strconv"
@@ -93,10 +94,14 @@ func uList(vs []uint64) string {
 }
 
 type checker struct {
-	c  *core.Ctx
-	cs *c04Case
-	ok bool
+	c    *core.Ctx
+	cs   *c04Case
+	ok   bool
+	fuzz int // malformed streams derived from the case: 0 none, 1 sampled, 2 also exhaustive for short encodings
 }
+
+// every fuzzEvery-th case (by hash) gets its encoding mutated
+var fuzzEvery = uint32(1)
 
 func (k *checker) viol(class, what string) {
 	k.ok = false
@@ -125,6 +130,21 @@ func safely(f func()) (p string) {
 // check runs one case; returns false when something was reported.
 func check(c *core.Ctx, cs *c04Case) bool {
 	k := &checker{c: c, cs: cs, ok: true}
+	if strings.HasPrefix(cs.Enc, "godec:") {
+		if p := safely(func() { k.checkStream(cs.Enc[6:], cs.Width, strsOf(cs)[0]) }); p != "" {
+			k.viol("panic", "harness panicked on a recorded stream: "+p)
+		}
+		return k.ok
+	}
+	key, _ := json.Marshal(cs)
+	hh := fnv.New32a()
+	hh.Write(key)
+	if hv := hh.Sum32(); hv%fuzzEvery == 0 {
+		k.fuzz = 1
+		if (hv/fuzzEvery)%4 == 0 {
+			k.fuzz = 2
+		}
+	}
 	rng := rand.New(rand.NewSource(int64(len(cs.Ints))*7919 + int64(len(cs.Strs))*104729 + int64(cs.Width)))
 	if p := safely(func() { checkInner(k, rng) }); p != "" {
 		k.viol("panic", "encoder/decoder panicked: "+p)
@@ -256,6 +276,7 @@ func checkInner(k *checker, rng *rand.Rand) {
 		}
 		switch cs.Enc[:3] {
 		case "dbp":
+			defer k.decoderTie(rng, cs.Enc, 0, got, zList(cs.Ints))
 			k.corr("delta_binary_packed.encode_bytes", core.Hexs(got), c.Ask("c04.dbp_enc "+width+" "+zList(cs.Ints)))
 			sd := c.Ask("c04.dbp_dec " + width + " " + core.Hexs(got))
 			if sd != zList(cs.Ints)+" x" {
@@ -298,6 +319,7 @@ func checkInner(k *checker, rng *rand.Rand) {
 			k.viol("go-roundtrip", fmt.Sprintf("rle levels width %d: Go decode(encode(x)) != x (%v)", cs.Width, derr))
 		}
 		if c.HasOracle() {
+			defer k.decoderTie(rng, "levels", cs.Width, got, uList(us))
 			k.corr("rle_levels.encode_bytes", core.Hexs(got), c.Ask(fmt.Sprintf("c04.rle_levels %d %s", cs.Width, uList(us))))
 			if sd := c.Ask(fmt.Sprintf("c04.rle_dec %d %s", cs.Width, core.Hexs(got))); sd != uList(us) {
 				k.viol("spec-decode", fmt.Sprintf("rle levels width %d: specification decoder gives %s", cs.Width, core.Trunc(sd, 200)))
@@ -326,6 +348,9 @@ func checkInner(k *checker, rng *rand.Rand) {
 			k.viol("go-roundtrip", fmt.Sprintf("%s width %d: Go decode(encode(x)) != x (%v)", cs.Enc, cs.Width, derr))
 		}
 		if c.HasOracle() {
+			if derr == nil {
+				defer k.decoderTie(rng, map[string]string{"rle_dict": "dict", "rle_int32": "int32"}[cs.Enc], cs.Width, got, u32List(d))
+			}
 			if cs.Enc == "rle_dict" {
 				k.corr("rle_dictionary.encode_bytes", core.Hexs(got), c.Ask("c04.dict_enc "+uList(us)))
 				if sd := c.Ask("c04.dict_dec " + core.Hexs(got)); sd != uList(us) {
@@ -363,6 +388,9 @@ func checkInner(k *checker, rng *rand.Rand) {
 			k.viol("go-roundtrip", fmt.Sprintf("%s: Go decode(encode(x)) != x (%v)", cs.Enc, derr))
 		}
 		if c.HasOracle() {
+			if cs.Enc == "rle_bool" && derr == nil {
+				defer k.decoderTie(rng, "bool", 1, got, core.Hexs(d))
+			}
 			if cs.Enc == "rle_bool" {
 				k.corr("rle_boolean.encode_bytes", core.Hexs(got), c.Ask("c04.rle_bool_enc "+core.Hexs(src)))
 				if sd := c.Ask(fmt.Sprintf("c04.rle_bool_dec %d %s", cs.N, core.Hexs(got))); sd != uList(bits) {
@@ -399,6 +427,16 @@ func checkInner(k *checker, rng *rand.Rand) {
 			k.viol("go-roundtrip", fmt.Sprintf("%s: Go decode(encode(x)) != x (%v)", cs.Enc, derr))
 		}
 		if c.HasOracle() {
+			switch {
+			case cs.Enc == "dlba" && derr == nil:
+				us := make([]uint64, len(doff))
+				for i, v := range doff {
+					us[i] = uint64(v)
+				}
+				defer k.decoderTie(rng, "dlba", 0, got, core.Hexs(dd)+" "+uList(us))
+			case cs.Enc == "dba":
+				defer k.decoderTie(rng, "dba", 0, got, hexList(vs))
+			}
 			encCmd := map[string]string{"plain_ba": "c04.plain_ba", "dlba": "c04.dlba_enc", "dba": "c04.dba_enc"}[cs.Enc]
 			decCmd := map[string]string{"plain_ba": "c04.plain_ba_dec", "dlba": "c04.dlba_dec", "dba": "c04.dba_dec"}[cs.Enc]
 			k.corr(cs.Enc+".encode_bytes", core.Hexs(got), c.Ask(encCmd+" "+hexList(vs)))
@@ -435,6 +473,7 @@ func checkInner(k *checker, rng *rand.Rand) {
 					k.viol("spec-decode", "plain flba: specification decoder gives "+core.Trunc(sd, 200))
 				}
 			case "dba_flba":
+				defer k.decoderTie(rng, "dba_flba", cs.Width, got, core.Hexs(data))
 				k.corr("delta_byte_array_flba.encode_bytes", core.Hexs(got), c.Ask("c04.dba_enc "+hexList(vs)))
 				if sd := c.Ask("c04.dba_dec " + core.Hexs(got)); sd != hexList(vs) {
 					k.viol("spec-decode", "delta byte array (flba): specification decoder gives "+core.Trunc(sd, 200))
@@ -719,6 +758,7 @@ func genStrs(rng *rand.Rand, n, kind, fixed int) []string {
 func run(c *core.Ctx) {
 	c.Res.Rule = "per (encoding, type): sequences from length buckets {0,1,2,3,7,8,9,15..17,31..33,63..65,127..130,255..258,1000,1025} x value patterns (constant, ramp, extremes, alternating, random full range, small runs; levels: constant, long runs, width-filling, group patterns; byte strings: shared prefixes, empty/long, identical, small alphabet), all RLE bit widths 0..8 (levels) and 0..32 (int32), an exhaustive sweep of all sequences of length <= 4 over {min,-1,0,1,max} for the delta encodings; destination buffers nil / dirty / oversized / reused. Checked per case: Go bytes == model bytes, Go decode(Go bytes) == input, specification decoder(Go bytes) == input. Non-trivial = at least 2 values; distinct by the JSON of the case."
 	rng := c.Rng
+	fuzzEvery = uint32(c.N(4, 1))
 
 	// corpus: regressions first
 	corpus := []c04Case{
@@ -885,6 +925,7 @@ func run(c *core.Ctx) {
 	c.Vm("Definition mismatches := filter (fun '(xs, b) => negb (eqb_bytes (DeltaBP.enc 32 xs) b)) cases.")
 	c.Vm("Definition M := Eval vm_compute in (length cases, mismatches).\nPrint M.")
 	c.Res.VmCases = count
+	reportDecoderStats(c)
 }
 
 func bucketOf(n int) int {
